@@ -498,7 +498,7 @@ func main() {
 
 	// ----- round trip -----
 	paths := []string{"a", "d/b", "d/e/c", ".dot", "d/.h", "-- x --", "dd/a", "xd/d/f", ".cfg/s", "..u/v"}
-	conts := []string{"", "x\n", "x", "-- m --\n", "x\n-- m --\n", ">q\n", "-- m --", "\xff\xfe\n", "x\r\n-- m --\r\n"}
+	conts := []string{"", "x\n", "x", "-- m --\n", "x\n-- m --\n", ">q\n", "-- m --", "\xff\xfe\n", "x\r\n-- m --\r\n", "\n-- m --\n\nx\n\n"}
 	var files []treeFile
 	for _, p := range paths {
 		for _, c := range conts {
